@@ -46,7 +46,7 @@ pub fn gen_plan(rng: &mut Rng) -> Plan {
     let value = match rng.below(20) {
         0 => pick_u64(rng, &[4_294_967_296, 5_000_000_000, 4_000_000_000]),
         1 => pick_u64(rng, &[DIV1000, DIV1000 - 1, DIV1000 / 2]),
-        2 if !outbound => pick_u64(rng, &[DIV1000 + 1, u64::MAX, u64::MAX - 1, 1 << 63]),
+        2 if !outbound || rng.chance(1, 4) => pick_u64(rng, &[DIV1000 + 1, u64::MAX, u64::MAX - 1, 1 << 63]),
         3 => pick_u64(rng, &[1_000_000_000, 1_000_000_001, 1_000_000_002]),
         4 => rng.range(100_000, 50_000_000),
         _ => pick_u64(rng, &[3_000_000, 10_000_000, 16_777_216, 100_000_000]),
@@ -69,6 +69,7 @@ pub fn gen_plan(rng: &mut Rng) -> Plan {
         0 => 1 << rng.below(12),
         1 => (1 << rng.below(12)) | (1 << rng.below(24)),
         2 if rng.chance(1, 3) => 1 << BIT_PERMISSIVE,
+        3 => 1 << BIT_NEAR_MISS,
         _ => 0,
     };
     let edge = |rng: &mut Rng, lo: u64, hi: u64| -> u64 {
@@ -138,8 +139,9 @@ pub fn gen_commit(rng: &mut Rng, plan: &mut Plan, n: u64, mutate: bool, tune: bo
     // --- choose which bound to leave (if any) ---
     let which = if mutate { rng.below(12) } else { 99 };
     match which {
-        0 if !offered.is_empty() => offered[0].0 = lim_off.saturating_sub(1 + rng.below(2) * 300),
-        1 if !received.is_empty() => received[0].0 = lim_recv.saturating_sub(1),
+        // below the trim limit by one, far below, and the degenerate values 0 and 1
+        0 if !offered.is_empty() => offered[0].0 = pick_u64(rng, &[lim_off.saturating_sub(1), lim_off.saturating_sub(301), 0, 1]),
+        1 if !received.is_empty() => received[0].0 = pick_u64(rng, &[lim_recv.saturating_sub(1), lim_recv.saturating_sub(1), 0, 1]),
         2 if k > 0 => {
             let e = pick_u64(rng, &[500_000_000, 500_000_001, 4_294_967_295, lo_e.saturating_sub(1), (hi_e + 1).min(4_294_967_295), 0]);
             if !offered.is_empty() { offered[0].1 = e } else { received[0].1 = e }
